@@ -1152,3 +1152,4 @@ class Skip(Exception):
 # Availability failures are classified by control reads (never verdicts) under a deterministic, coverage-favourable
 # schedule: same grid (=> survey race/coverage), ordinary damage in place of the actual damage (=> form of damage), only
 # holders of intact shares listed (=> coverage).
+#   seeded/C10-5 (retry appends to the first attempt's consumer)        caught  delivered-unpublished-bytes/late-segment  (family late-segment)
